@@ -43,15 +43,15 @@ def run(c):
     # --- head write after all validation steps
     c.r1_all("head-after-validation", P + "process_block",
              [P + "check_known", P + "validate_pow_only", P + "process_block_header", P + "validate_block",
-              "grin_chain::txhashset::txhashset::extending", P + "add_block"], sink=P + "update_head", via=0)
+              "grin_chain::txhashset::txhashset::extending", P + "add_block"], sink=P + "update_head", via=2)
     # the extension closure applies the block only after fork rewind + UTXO + sums
     c.r1_all("apply-after-checks", P + "process_block@txhashset::txhashset::extending",
              [P + "rewind_and_apply_fork", P + "verify_coinbase_maturity", P + "validate_utxo", P + "verify_block_sums"],
-             sink=P + "apply_block_to_txhashset", via=0)
-    c.r1("ok-after-apply", P + "process_block@txhashset::txhashset::extending", P + "apply_block_to_txhashset", sink="ok", via=0)
+             sink=P + "apply_block_to_txhashset", via=2)
+    c.r1("ok-after-apply", P + "process_block@txhashset::txhashset::extending", P + "apply_block_to_txhashset", sink="ok", via=2)
     # --- known-check gating and orphan processing
-    c.r1("header-first", P + "process_block_header", P + "validate_header", sink=P + "update_header_head", via=0)
-    c.r1("header-store-after-validate", P + "process_block_header", P + "validate_header", sink=P + "add_block_header", via=0)
+    c.r1("header-first", P + "process_block_header", P + "validate_header", sink=P + "update_header_head", via=2)
+    c.r1("header-store-after-validate", P + "process_block_header", P + "validate_header", sink=P + "add_block_header", via=2)
 
 
 def _true_edges(c, fn, cond):
